@@ -589,9 +589,112 @@ struct Explorer
         }
     }
 
+    // sizes: one long deterministic history at capacities far above the explored ones (beyond small buffers, narrow
+    // index types, chunked growth) - fill, overflow, erase / emplace at the front, in the middle and at the end, range
+    // append and insert, pop to empty, underflow, copy / move - judged after every step by the same oracle.  A finding is
+    // reported with the recipe that reproduces it through the ordinary replay.
+    void long_traces(mc::Report& rep)
+    {
+        for (int cap : { 17, 64, 300 })
+        {
+            std::vector<Finding> findings;
+            std::vector<Op> done;
+            long steps = 0;
+            {
+                World<T> w;
+                w.nvalues = cfg.nvalues;
+                w.out = &findings;
+                int val = 0;
+                auto value = [&] { return 1 + (val++ % cfg.nvalues); };
+                auto apply = [&](const std::string& code, int a = 0, int b = 0) {
+                    if (!findings.empty())
+                        return;
+                    Op o;
+                    o.slot = 0;
+                    o.code = code;
+                    o.a = a;
+                    o.b = b;
+                    bool ok = w.apply(o);
+                    w.observe(0, "long history at capacity " + std::to_string(cap) + ", step " + std::to_string(steps) + ": " + o.str());
+                    steps++;
+                    if (findings.empty() && ok)
+                        done.push_back(o);
+                    else if (!findings.empty())
+                        findings.back().detail += " [recipe: " + recipe_str(done, 0) + " then " + o.str() + "]";
+                };
+                apply("NEW", cap);
+                const bool copyable = std::is_copy_constructible<T>::value;
+                for (int i = 0; i < cap; i++)
+                    apply(i % 3 == 0 || !copyable ? "EB" : i % 3 == 1 ? "PB" : "IM", value());
+                apply("EB", value()); // full: must throw and change nothing
+                apply("EM", cap / 2, value());
+                for (int i = 0; i < cap / 4; i++)
+                {
+                    apply("ER", 0);
+                    apply("ER", (cap - 2 * i) / 2);
+                    apply("POP");
+                }
+                for (int i = 0; i < cap / 4; i++)
+                {
+                    apply("EM", 0, value());
+                    apply("EM", cap / 3, value());
+                    if (copyable)
+                        apply("EMS", 1, cap / 5);
+                    else
+                        apply("EM", 1, value());
+                }
+                apply("AT", cap);
+                apply("AT", cap - 1);
+                apply("GET", 0);
+                apply("ER", cap); // not below size: must throw
+                for (int i = 0; i < cap / 2; i++)
+                    apply("POP");
+                apply("PBR", cap / 4);
+                apply("IR", cap / 2 + cap / 4, cap / 8);
+                apply("PBRI", cap / 8);
+                apply("PBR", cap); // does not fit
+                for (int i = 0; i < cap + 2; i++)
+                    apply("POP"); // the last ones on an empty container: must throw
+                for (int i = 0; i < 5; i++)
+                    apply("EB", value());
+            }
+            if (!R().live.empty())
+            {
+                findings.push_back({ "C06", "element-leaked", std::to_string(R().live.size()) + " element object(s) still alive after the long history at capacity " + std::to_string(cap) });
+                R().live.clear();
+            }
+            for (auto& e : R().errors)
+                findings.push_back({ "C06", "element-lifetime-error", e + " (long history at capacity " + std::to_string(cap) + ")" });
+            R().errors.clear();
+            rep.count("executions", steps);
+            rep.count("long_history_steps", steps);
+            for (auto& f : findings)
+            {
+                if (f.owner != cfg.owner && f.owner != "harness")
+                {
+                    rep.count("not_judged_here:" + f.owner + ":" + f.clause);
+                    continue;
+                }
+                Op last = done.empty() ? Op() : done.back();
+                std::vector<Op> pre(done.begin(), done.empty() ? done.end() : done.end());
+                rep.violation(f.clause, cfg.owner + ":" + f.clause + ":" + cfg.type_name + ":long-history", mc::J().s("type", cfg.type_name).n("nvalues", cfg.nvalues).s("long_history", std::to_string(cap)).str(), f.detail.substr(0, 1500), 0);
+            }
+        }
+    }
+
     // replay of one witness
     int replay(const js::Value& w)
     {
+        if (w.has("long_history"))
+        {
+            mc::Report r;
+            long_traces(r);
+            for (auto& v : r.violations)
+                printf("  FAILED clause: %s\n    %s\n", v.second.clause.c_str(), v.second.detail.c_str());
+            if (r.violations.empty())
+                printf("replay %s (%s) long histories: conform\n", cfg.owner.c_str(), cfg.type_name.c_str());
+            return r.violations.empty() ? 0 : 1;
+        }
         Op op = Op::parse("0:" + w.s("op").substr(w.s("op").find(':') + 1));
         long fa = w.n("fault_at");
         std::string recipe = w.s("recipe"), rb = w.s("recipe_b");
